@@ -1038,6 +1038,45 @@ fn geo_part(rep: &mut Report, rng: &mut Rng, exhaustive_small: bool, n: usize) {
 			rep.violation("pyramid_from_geo|levels", "from_geo_bbox lacks requested levels", json!({"geo": format!("{g:?}")}));
 		}
 	});
+
+	// per-level application: the pyramid forms of the geographic operations are the box form applied level by
+	// level — also for boxes whose edges lie a hair beside a tile border of some level
+	let mut rng = crate::rng::Rng::new(0xC15_6E0 ^ rep.counter("geo_roundtrips"));
+	let eps = [0.0, 1e-12, 1e-10, 1e-9, 1e-8, 1e-7, 1e-6, 1e-5];
+	guarded_loop(rep, "pyramid_geo_per_level", 400, |_, rep| {
+		let z0 = rng.range(0, 20) as u8;
+		let n = 1u64 << z0;
+		let edge = |rng: &mut crate::rng::Rng, lon: bool| -> f64 {
+			let k = rng.range(0, n) as f64;
+			let e = *rng.pick(&eps) * if rng.bool() { 1.0 } else { -1.0 };
+			if lon {
+				(crate::model::tile_lon(k, z0) + e).clamp(-180.0, 180.0)
+			} else {
+				(crate::model::tile_lat(k, z0) + e).clamp(-85.05, 85.05)
+			}
+		};
+		let (a, b, c, d) = (edge(&mut rng, true), edge(&mut rng, false), edge(&mut rng, true), edge(&mut rng, false));
+		let g = GeoBBox(a.min(c), b.min(d), a.max(c), b.max(d));
+		set_cur(format!("pyramid per-level geo {g:?}"));
+		rep.eval();
+		rep.count("pyramid_geo_per_level_checks", 1);
+		let mut p = TileBBoxPyramid::new_full(31);
+		p.intersect_geo_bbox(&g);
+		let q = TileBBoxPyramid::from_geo_bbox(0, 31, &g);
+		for z in 0..32u8 {
+			let Ok(want) = TileBBox::from_geo(z, &g) else { continue };
+			let (lp, lq) = (p.get_level_bbox(z), q.get_level_bbox(z));
+			let same = |x: &TileBBox| (x.is_empty() && want.is_empty()) || (x.x_min, x.y_min, x.x_max, x.y_max) == (want.x_min, want.y_min, want.x_max, want.y_max);
+			if !same(lp) {
+				rep.violation("pyramid_intersect_geo|per-level", "intersect_geo_bbox of a full pyramid differs from from_geo on a level", json!({"geo": format!("{g:?}"), "z": z, "pyramid": format!("{lp:?}"), "box": format!("{want:?}")}));
+				break;
+			}
+			if !same(lq) {
+				rep.violation("pyramid_from_geo|per-level", "from_geo_bbox differs from from_geo on a level", json!({"geo": format!("{g:?}"), "z": z, "pyramid": format!("{lq:?}"), "box": format!("{want:?}")}));
+				break;
+			}
+		}
+	});
 }
 
 // ---------------------------------------------------------------------------------------------
